@@ -112,8 +112,8 @@ impl Affine2 {
     /// Panics if `slice` is less than 6 elements long.
     #[inline]
     pub fn write_cols_to_slice(self, slice: &mut [f32]) {
-        self.matrix2.write_cols_to_slice(&mut slice[0..4]);
-        self.translation.write_to_slice(&mut slice[4..6]);
+        // the length is checked before anything is written
+        slice[..6].copy_from_slice(&self.to_cols_array());
     }
 
     /// Creates an affine transform that changes scale.
